@@ -200,9 +200,14 @@ def main():
 
     # 1. tie #1 and the proof obligations
     try:
-        changed, _ = extract_facts.regenerate(core.REPO, core.GENERATED)
+        changed, _, missing = extract_facts.regenerate(core.REPO, core.GENERATED)
         if changed:
             notes.append("Generated/Repo.lean changed: facts differ from the committed copy")
+        for name, why in missing.items():
+            if fact_matters(pid, name):
+                broken.append({"kind": "tie-extract", "what": f"extract_facts could not find the fact {name} this property depends on: {why}"})
+            else:
+                notes.append(f"fact {name} could not be extracted ({why}); this property does not depend on it, previous definition kept")
     except extract_facts.ExtractError as exc:
         broken.append({"kind": "tie-extract", "what": f"extract_facts could not find: {exc}"})
     driver_ok = True
@@ -237,7 +242,8 @@ def main():
             suite = SUITES[sname]()
             rng = core.seeded(seed, sname, tier)
             seqs = suite.corpus() + suite.gen(rng, tier)
-            dis, stats = core.run_suite(suite, seqs)
+            accept = (lambda line, fs, rules=facets: relevant_line(line, fs, rules))
+            dis, stats = core.run_suite(suite, seqs, accept)
             stats["facets_compared"] = facets if facets else "all"
             if hasattr(suite, "distribution"):
                 stats["distribution"] = suite.distribution()
@@ -250,7 +256,7 @@ def main():
                 samples.append({"suite": sname, "requests": [p[0][:160] for p in first[:6]]})
             rel = [d for d in dis if relevant(d, facets)]
             for d in rel[:3]:
-                d = core.shrink(suite, d, flat_facets(facets))
+                d = core.shrink(suite, d, flat_facets(facets), accept=accept)
                 disagreements.append(d)
                 broken.append({"kind": "correspondence", "what": f"suite {sname}: model and implementation differ on facets {d.facets}", "disagreement": d.to_json()})
             if len(rel) > 3:
@@ -336,16 +342,31 @@ def main():
     return 1 if violations else 0
 
 
-def relevant(d, rules):
+def fact_matters(pid, fact):
+    """does property pid depend on the extracted fact? (through the structures its suites exercise)"""
+    from props import FACT_USERS
+
+    suites = {name for name, _ in PROPS[pid]["suites"]}
+    for prefix, users in FACT_USERS.items():
+        if fact.startswith(prefix):
+            return bool(suites & users)
+    return True
+
+
+def relevant_line(line, diff_facets, rules):
     """rules: None (everything) | list of facet names | list of (line regex, facets or None)"""
     if rules is None:
         return True
     if rules and isinstance(rules[0], str):
-        return bool(set(d.facets) & set(rules))
+        return bool(set(diff_facets) & set(rules))
     for rx, facets in rules:
-        if re.search(rx, d.line) and (facets is None or set(d.facets) & set(facets)):
+        if re.search(rx, line) and (facets is None or set(diff_facets) & set(facets)):
             return True
     return False
+
+
+def relevant(d, rules):
+    return relevant_line(d.line, d.facets, rules)
 
 
 def flat_facets(rules):
